@@ -16,7 +16,23 @@ COND_CLASSES = [["cur"], ["stale"], ["other"], ["star"], ["unq"], ["garbage"],
 
 PROP_VALUES = ["Plain", "Work calendar", "50% done", "a=b:c", "[x] # y", "Zoë ☃",
                "quote\"s'", "x"]
-COLORS = ["#FF0000", "#00ff00aa", "#123456"]
+COLORS = ["#FF0000", "#00ff00aa", "#123456", "#ABCDEF12"]
+NASTY_VALUES = ["%", "%%", "100%", "%(displayname)s", "%s", "[section]", "[", "#hash", "a = b",
+                "key: value", "\"quoted\"", "it's", "back\\slash", "ü", "日本語 カレンダー", "a#b", "x=y=z",
+                "tab\tinside", "two  spaces", "=", ":", "!bang", "${var}", "~", "a,b", "<tag>&amp;"]
+VALUE_ALPHABET = list("abcXYZ019 %[]#=:\"'\\()$!?&<>/.,-_üé☃") + ["%%", "%(", ")s"]
+
+
+def gen_value(rng, allow_semicolon=True):
+    """A free-text property value: no leading/trailing white space, no CR/LF."""
+    if rng.random() < 0.5:
+        v = rng.choice(NASTY_VALUES)
+    else:
+        v = "".join(rng.choice(VALUE_ALPHABET) for _ in range(rng.randint(1, 12)))
+    if allow_semicolon and rng.random() < 0.15:
+        v = v + ";semi"
+    v = v.strip()
+    return v or "x"
 
 DEFAULT_PROFILE = {
     "put": 30, "post": 5, "delete": 10, "mk": 4, "delcoll": 2, "proppatch": 6, "restart": 3,
@@ -35,6 +51,7 @@ PROFILES = {
     "C08": {"proppatch": 12, "delete": 14, "reupload": 8, "restart": 5},
     "C09": {"proppatch": 12, "lock": 6, "reupload": 8, "delete": 12},
     "C14": {"invalid": 0.4, "reupload": 14, "put": 40},
+    "C15": {"proppatch": 45, "restart": 8, "mk": 6, "delcoll": 3, "put": 12, "propheavy": True},
     "C16": {"mk": 8, "delcoll": 5, "post": 10},
     "C17": {"multiget": 22, "delete": 12},
 }
@@ -119,7 +136,16 @@ def run_random_session(seed, prof, frontend="wsgi", prefix="/", backend="tree", 
                     how = "auto"
                     if k == "calendar" and rng.random() < 0.3:
                         how = "xmkcol"
-                    s.mk(c, k, how=how)
+                    props = ()
+                    if prof.get("propheavy") and rng.random() < 0.6:
+                        props = [("displayname", gen_value(rng))]
+                        if k == "calendar" and rng.random() < 0.5:
+                            props.append(("calcolor", rng.choice(COLORS)))
+                        if k == "addressbook" and rng.random() < 0.5:
+                            props.append(("abdesc", gen_value(rng)))
+                        if how == "auto" and k == "addressbook":
+                            how = "xmkcol"
+                    s.mk(c, k, how=how, props=props)
         ops = [(k, prof[k]) for k in ("put", "post", "delete", "mk", "delcoll", "proppatch",
                                       "restart", "lock", "get", "multiget", "reupload")]
         for _ in range(prof["len"]):
@@ -152,7 +178,10 @@ def run_random_session(seed, prof, frontend="wsgi", prefix="/", backend="tree", 
                 s.delete(c, n, im=im)
             elif op == "mk":
                 k = kinds[c] if rng.random() < 0.7 else rng.choice(["calendar", "addressbook", "other"])
-                s.mk(c, k, how=rng.choice(["auto", "auto", "xmkcol"]))
+                props = ()
+                if prof.get("propheavy") and rng.random() < 0.6:
+                    props = [("displayname", gen_value(rng))]
+                s.mk(c, k, how=rng.choice(["auto", "auto", "xmkcol"]), props=props)
             elif op == "delcoll":
                 s.delete_coll(c)
             elif op == "proppatch":
@@ -169,6 +198,8 @@ def run_random_session(seed, prof, frontend="wsgi", prefix="/", backend="tree", 
                     v = rng.choice(COLORS)
                 elif p == "order":
                     v = str(rng.randint(0, 99))
+                elif prof.get("propheavy"):
+                    v = gen_value(rng, allow_semicolon=backend in ("tree", "bare"))
                 else:
                     v = rng.choice(PROP_VALUES)
                 s.proppatch(c, p, v)
